@@ -70,6 +70,33 @@ class Inverse:
     def sample(self, rng, n): return dict(p=rng.integers(0, 2, 2 * n + 2, dtype=np.uint8))
 
 
+class InverseCached:
+    """object invariant of PauliOperator: the lazily cached (str, sign) of every RETURNED object denote the operator of its F2,
+    also when the operand's cache was filled before the call (read .sign, then .inverse())."""
+    prop = PROP; name = 'PauliOperator.inverse.cached_representations'; modules = [gp]; max_paths = 5000
+    targets = ['numqi.gate._pauli:PauliOperator.inverse', 'numqi.gate._pauli:PauliOperator.sign', 'numqi.gate._pauli:PauliOperator.str_']
+
+    def shape_label(self, sh): return f'n={sh[0]},prefill={sh[1]}'
+    def inputs(self, sh): return dict(p=F2('p', sh[0]), prefill=sh[1]), z3.BoolVal(True)
+
+    def call(self, I):
+        P = gp.PauliOperator(I['p'])
+        if I['prefill']:
+            _ = (P.sign, P.str_)
+        Q = P.inverse()
+        return dict(f=Q.F2, s=Q.str_, sign=Q.sign, pf=P.F2)
+
+    def comparable(self, r): return [r['f']]
+
+    def post(self, I, r):
+        fb = S.bits(r['f'])
+        return [('returned_str_sign_denote_returned_F2', _denotes(r['s'], complex(r['sign']), fb)),
+                ('returned_F2_is_spec_inverse', S.vec_eq(fb, SP.pauli_inv(S.bits(I['p'])))),
+                ('operand_unchanged', S.vec_eq(S.bits(r['pf']), S.bits(I['p'])))]
+
+    def sample(self, rng, sh): return dict(p=rng.integers(0, 2, 2 * sh[0] + 2, dtype=np.uint8), prefill=sh[1])
+
+
 class Commute:
     prop = PROP; name = 'PauliOperator.commutate_with'; modules = [gp]
     targets = ['numqi.gate._pauli:PauliOperator.commutate_with']
@@ -212,7 +239,7 @@ class RandPauli:
         return dict(draw=rng.integers(0, 2, 2 * sh[0] + 2, dtype=np.uint8), n=sh[0], h=sh[1])
 
 
-CONTRACTS = {c.name: c for c in [Matmul(), Inverse(), Commute(), F2StrF2(), IndexF2Index(), RandPauli()]}
+CONTRACTS = {c.name: c for c in [Matmul(), Inverse(), InverseCached(), Commute(), F2StrF2(), IndexF2Index(), RandPauli()]}
 
 
 def job_contract(tier, rng, cname, shape, part=(0, 1)):
@@ -325,6 +352,15 @@ def job_dense_exhaustive(tier, rng, n):
         ok = ok and np.abs(sg * gp.hf_kron([gp._one_pauli_str_to_np[c] for c in s]) - dense[a]).max() < 1e-12
         inv = P.inverse().F2
         ok = ok and np.abs(SP.dense(inv) @ dense[a] - np.eye(2 ** n)).max() < 1e-12
+        # every representation of the RETURNED object (cached string/sign/matrix) must denote the same operator, whether or not
+        # the operand's lazily cached representations were filled before the call (history: read sign/str first, then operate)
+        for prefill in (False, True):
+            P2 = gp.PauliOperator(fa.copy())
+            if prefill:
+                _ = (P2.sign, P2.str_, P2.np_list, str(P2))
+            Q = P2.inverse()
+            ok = ok and np.abs(Q.full_matrix @ dense[a] - np.eye(2 ** n)).max() < 1e-12 and np.abs(Q.sign * gp.hf_kron(Q.np_list) - Q.full_matrix).max() < 1e-12 \
+                and np.array_equal(gp.pauli_str_to_F2(Q.str_, Q.sign), Q.F2) and np.array_equal(P2.F2, fa)
         ok = ok and SP.conc(SP.pauli_inv(S.bits(fa))) == [int(v) for v in inv]
         cnt += 1
         if not ok and bad is None:
@@ -332,6 +368,11 @@ def job_dense_exhaustive(tier, rng, n):
         for b, fb in enumerate(ops):
             Q = gp.PauliOperator(fb)
             prod = (P @ Q).F2
+            if (a * 7 + b) % 5 == 0:
+                Pp = gp.PauliOperator(fa.copy()); Qp = gp.PauliOperator(fb.copy()); _ = (Pp.sign, Qp.sign, Pp.np_list, Qp.np_list)
+                R = Pp @ Qp
+                if np.abs(R.full_matrix - dense[a] @ dense[b]).max() > 1e-12 or not np.array_equal(gp.pauli_str_to_F2(R.str_, R.sign), R.F2):
+                    bad = bad or dict(kind='pair-cached-representation', p=fa.tolist(), q=fb.tolist())
             spec = SP.conc(SP.pauli_mul(S.bits(fa), S.bits(fb)))
             comm = bool(P.commutate_with(Q))
             dcomm = np.abs(dense[a] @ dense[b] - dense[b] @ dense[a]).max() < 1e-12
@@ -380,8 +421,16 @@ def job_index_batch(tier, rng, nmax):
                 bad = dict(n=n, what=f'batch shape {shp}', index=sub.tolist())
     # large indices up to 4^31 through the bit-packed path
     for n in [8, 12, 16, 24, 31]:
-        sub = np.array([int(rng.integers(0, 2 ** 62)) % (4 ** n) for _ in range(20)] + [4 ** n - 1, 0], dtype=np.uint64)
+        sub = np.array([int(rng.integers(0, 2 ** 62)) % (4 ** n) for _ in range(20)] + [4 ** n - 1, 0, 4 ** n - 2, (4 ** n) // 3], dtype=np.uint64)
         fb = gp.pauli_index_to_F2(sub, n)
+        for shp in [(len(sub),), (2, len(sub) // 2)]:
+            for ws in (True, False):
+                fbb = (fb if ws else fb[:, 2:]).reshape(shp + (-1,))
+                back = gp.pauli_F2_to_index(fbb, with_sign=ws)
+                cnt += 1
+                if [int(v) for v in np.asarray(back).reshape(-1)] != [int(v) for v in sub] and bad is None:
+                    bad = dict(n=n, what=f'batched pauli_F2_to_index shape {shp} with_sign={ws}', index=[int(v) for v in sub],
+                               got=[int(v) for v in np.asarray(back).reshape(-1)])
         for k in range(len(sub)):
             ok = np.array_equal(fb[k], gp._pauli_index_int_to_F2(int(sub[k]), n, True)) and int(gp.pauli_F2_to_index(fb[k])) == int(sub[k])
             cnt += 1
@@ -418,6 +467,9 @@ def jobs(tier):
         J.append(('job_contract', dict(cname='PauliOperator.__matmul__', shape=n)))
         J.append(('job_contract', dict(cname='PauliOperator.inverse', shape=n)))
         J.append(('job_contract', dict(cname='PauliOperator.commutate_with', shape=n)))
+        if n <= 2:
+            for pf in (False, True):
+                J.append(('job_contract', dict(cname='PauliOperator.inverse.cached_representations', shape=(n, pf))))
         J.append(('job_spec_lemmas', dict(n=n)))
         k = {1: 1, 2: 1, 3: 2, 4: 8}[n]
         for i in range(k):
